@@ -98,16 +98,17 @@ type Result struct {
 }
 
 type ScenarioInfo struct {
-	Prop     string   `json:"prop"`
-	Desc     string   `json:"desc"`
-	Quick    int      `json:"quick"`
-	Thorough int      `json:"thorough"`
-	Race     bool     `json:"race"`
-	Crash    bool     `json:"crash_is_violation"`
-	Real     string   `json:"real"`
-	Model    string   `json:"model"`
-	Rule     string   `json:"rule"`
-	Assume   []string `json:"assume"`
+	Prop      string   `json:"prop"`
+	Desc      string   `json:"desc"`
+	Quick     int      `json:"quick"`
+	Thorough  int      `json:"thorough"`
+	Race      bool     `json:"race"`
+	RaceScope []string `json:"race_scope"`
+	Crash     bool     `json:"crash_is_violation"`
+	Real      string   `json:"real"`
+	Model     string   `json:"model"`
+	Rule      string   `json:"rule"`
+	Assume    []string `json:"assume"`
 }
 
 type Finding struct {
@@ -290,7 +291,6 @@ func exitClean(code int) {
 	}
 	os.Exit(code)
 }
-
 
 func simEnv(extra ...string) []string {
 	env := append(os.Environ(), "GODEBUG=asyncpreemptoff=1")
@@ -969,7 +969,13 @@ func fanOut(b *build, prop, tier string, seed uint64, n, procs, budgetS int, kee
 			for _, m := range matches {
 				rb, _ := os.ReadFile(m)
 				for _, rep := range parseRaceReports(string(rb)) {
-					if rep.gateOnly {
+					inScope := len(info.RaceScope) == 0
+					for _, sub := range info.RaceScope {
+						if strings.Contains(rep.text, sub) {
+							inScope = true
+						}
+					}
+					if rep.gateOnly && inScope {
 						crashes = append(crashes, &Result{Prop: prop, Index: -1, Seed: seed,
 							Viol: &Violation{Class: "data-race", Sig: rep.sig, Detail: rep.text}})
 					}
@@ -1341,14 +1347,14 @@ func writeEvidence(prop, tier string, seed uint64, info *ScenarioInfo, b *build,
 			"strategies":                           strategies,
 			// a diagnostic, not a measure of work: what is still blocked when a bubble is torn
 			// down depends on the real scheduler after the simulation has ended
-			"post_run_teardown_note": fmt.Sprintf("%d run(s) ended with goroutines still blocked at bubble teardown (after the simulated run; not replay-relevant)", leaked),
-			"inconclusive_runs_budget_exhausted":   inconcl,
-			"adopted_goroutines":                   adopted,
-			"real_code":                            info.Real,
-			"models_and_stubs":                     info.Model,
-			"known_findings_hit":                   kn,
-			"repo_tree_hash":                       b.treeHash,
-			"instrumentation":                      b.instrStats,
+			"post_run_teardown_note":             fmt.Sprintf("%d run(s) ended with goroutines still blocked at bubble teardown (after the simulated run; not replay-relevant)", leaked),
+			"inconclusive_runs_budget_exhausted": inconcl,
+			"adopted_goroutines":                 adopted,
+			"real_code":                          info.Real,
+			"models_and_stubs":                   info.Model,
+			"known_findings_hit":                 kn,
+			"repo_tree_hash":                     b.treeHash,
+			"instrumentation":                    b.instrStats,
 		},
 		"assumptions": append([]string{
 			"sampling, not enumeration: a clean batch is evidence, not proof",
